@@ -109,7 +109,7 @@ fn run(ctx: &Arc<Ctx>) {
     ctx.run_enumerated("fixed", "enc", fixed, None, check);
     let o = EncGenOpts { long_weight: if ctx.quick() { 1 } else { 2 }, allow_fnc1: false, ..Default::default() };
     // restricted mode sets are the point of this property: re-draw "all modes" cases as restricted ones
-    ctx.run_generated("generated", "enc", ctx.cases(300_000, 3_000_000), || {
+    ctx.run_generated("generated", "enc", ctx.cases(600_000, 4_000_000), || {
         use proptest::prelude::*;
         (g_enc_case(o), 1u8..=62).prop_map(|(mut c, m)| {
             if c.modes == 63 {
